@@ -132,6 +132,21 @@ class NBBOOnly(Feature):
         self.log.append(event)
 
 
+class PassiveFeature(Feature):
+    """A feature that observes no event: it reads the broker when parsed and keeps a running
+    peak (state set in __init__) plus the usual history."""
+
+    def __init__(self):
+        super().__init__(name="PassiveFeature")
+        self.peak = 0.0
+
+    def parse(self):
+        nlv = self.broker.net_liquidation_value(False) if self.broker is not None else 0.0
+        if nlv > self.peak:
+            self.peak = nlv
+        return nlv - self.peak
+
+
 class PriceState(IState):
     """A user-defined state with parse() implemented: IState saves a deep copy of every parsed
     observation into ``history`` keyed by the time of the latest update."""
@@ -384,6 +399,8 @@ class Episode:
             self.recorder = _RecorderWithFeatures(self.log, self.envbox, [PingOnly(self.ping_log), NBBOOnly(self.nbbo_log)])
         if cfg.get("feature"):
             self.recorder = IState([PriceFeature(self.contracts[0], self.log, self.envbox)], save=False)
+        if cfg.get("passive_feature"):
+            self.recorder = IState([PassiveFeature()], save=False)
         if cfg.get("state_history"):
             self.recorder = PriceState(self.contracts[0], self.log, self.envbox)
         self.env = TradingEnv(action_space=self.space, state=self.recorder, transmitter=self.transmitter,
